@@ -62,7 +62,8 @@ def base_frame(bi, n):
 
 def right_frame():
     from spatialpandas import GeoDataFrame
-    polys = L.make_array("polygon", [(sq(0, 0, 2, 2),), (sq(1, 1, 4, 4),), (sq(10, 10, 12, 12),)], "float64")
+    # small shapes in two corners: many partitions do not meet any of them (how='left' must still keep their rows)
+    polys = L.make_array("polygon", [(sq(-1, -1, 1.5, 1.5),), (sq(3.5, 3.5, 4.5, 4.5),), (sq(10, 10, 12, 12),)], "float64")
     import pandas as pd
     # labels are deliberately not 0..n-1 (positions and labels must not be confused)
     return GeoDataFrame({"geometry": polys, "rname": ["A", "B", "C"]}, index=pd.Index([2, 0, 1], name="rid"))
@@ -229,6 +230,19 @@ def explore_base(col, bi, n, k, thorough, scratch, seed):
             sub = bxs if (sum(mbits) >= 2) else bxs[::4]
             compare_ops(col, f, case, sub, geom_cols, points_active, deep=(zlib.crc32(repr(mbits).encode()) + k + seed) % 2 == 0 or thorough)
     ddf = dd.from_pandas(P0, npartitions=k)
+    # ---- provenance a2: the result of a cx query is itself a Dask geo frame (its own partition bounds / total bounds)
+    for b in bxs[1::6]:
+        case = {"base": bi, "n": n, "npartitions": k, "provenance": "cx_result", "first_box": list(b)}
+        r = dd.from_pandas(P0, npartitions=k).cx[b[0]:b[2], b[1]:b[3]]
+        compare_ops(col, r, case, bxs[::5], geom_cols, points_active, deep=False)
+        rs = dd.from_pandas(P0, npartitions=k).geometry.cx[b[0]:b[2], b[1]:b[3]]
+        try:
+            col.count("evaluations")
+            pc = rs.compute(scheduler="synchronous")
+            if not eqf(rs.total_bounds, pc.total_bounds if len(pc) else (np.nan,) * 4):
+                col.violation("total_bounds", dict(case, series=True), f"series cx result: dask total_bounds {rs.total_bounds} vs pandas {pc.total_bounds}")
+        except Exception as ex:
+            col.violation("rowwise.raises", dict(case, series=True), f"{type(ex).__name__}: {str(ex)[:200]}")
     # ---- provenance b: set_geometry(other)
     case = {"base": bi, "n": n, "npartitions": k, "provenance": "set_geometry"}
     compare_ops(col, ddf.set_geometry("other"), case, bxs[::2], geom_cols, points_other)
@@ -244,7 +258,7 @@ def explore_base(col, bi, n, k, thorough, scratch, seed):
                 continue
             compare_ops(col, packed, case, bxs[::3], geom_cols, points_active, deep=False)
     # ---- provenance d: parquet
-    path = os.path.join(scratch, f"c06-{os.getpid()}-{bi}-{n}-{k}.parq")
+    path = os.path.join(scratch, f"c06-{os.getpid()}.parq")        # deliberately the SAME path for every unit of this worker
     try:
         ddf.to_parquet(path, overwrite=True)
     except Exception as ex:
@@ -288,6 +302,19 @@ def big_frame(active_kind):
 
 
 def explore_big(col, active_kind, scratch, thorough):
+    try:
+        _explore_big(col, active_kind, scratch, thorough)
+    except core.HarnessError:
+        raise
+    except Exception as ex:
+        import traceback
+        tb = traceback.extract_tb(ex.__traceback__)
+        where = next((f"{os.path.basename(fr.filename)}:{fr.name}" for fr in reversed(tb) if "spatialpandas" in fr.filename), "?")
+        col.violation("big.raises", {"base": "big:" + active_kind, "n": 12, "npartitions": 0, "provenance": "big"},
+                      f"{type(ex).__name__}: {str(ex)[:200]} (in {where})")
+
+
+def _explore_big(col, active_kind, scratch, thorough):
     import dask.dataframe as dd
     from spatialpandas.io import read_parquet_dask
     P0 = big_frame(active_kind)
@@ -296,7 +323,7 @@ def explore_big(col, active_kind, scratch, thorough):
         ddf = dd.from_pandas(P0, npartitions=k)
         case = {"base": "big:" + active_kind, "n": 12, "npartitions": k, "provenance": "from_pandas"}
         compare_ops(col, ddf, case, bxs, {"act", "other"}, active_kind == "point", deep=True)
-        path = os.path.join(scratch, f"c06big-{os.getpid()}-{k}.parq")
+        path = os.path.join(scratch, f"c06-{os.getpid()}.parq")       # same path as every other unit of this worker
         ddf.to_parquet(path, overwrite=True)
         for geometry in ("act", None):
             case = {"base": "big:" + active_kind, "n": 12, "npartitions": k, "provenance": "parquet", "geometry": geometry}
@@ -307,6 +334,23 @@ def explore_big(col, active_kind, scratch, thorough):
             got = r.compute(scheduler="synchronous")["val"].tolist()
             if got != P0["val"].tolist():
                 col.violation("parquet.order", case, f"rows read back in order {got}")
+        # two datasets given as a list whose order is not the order of their paths
+        pa, pb = os.path.join(scratch, f"zz-first-{os.getpid()}.parq"), os.path.join(scratch, f"aa-second-{os.getpid()}.parq")
+        P1 = P0.iloc[:7]
+        P2 = P0.iloc[7:]
+        dd.from_pandas(P1, npartitions=3).to_parquet(pa, overwrite=True)
+        dd.from_pandas(P2, npartitions=2).to_parquet(pb, overwrite=True)
+        case = {"base": "big:" + active_kind, "n": 12, "npartitions": k, "provenance": "parquet_list"}
+        r = read_parquet_dask([pa, pb], geometry="act")
+        compare_ops(col, r, case, bxs, {"act", "other"}, active_kind == "point", deep=True)
+        if r.compute(scheduler="synchronous")["val"].tolist() != P0["val"].tolist():
+            col.violation("parquet.order", case, "list of datasets not concatenated in list order")
+        for b in bxs[:4]:
+            need = P0.cx[b[0]:b[2], b[1]:b[3]]["val"].tolist()
+            have = read_parquet_dask([pa, pb], geometry="act", bounds=b).compute(scheduler="synchronous")["val"].tolist()
+            col.count("evaluations")
+            if not set(need) <= set(have):
+                col.violation("parquet_bounds.lost_rows", dict(case, bounds=list(b)), f"bounds {b}: rows {need} intersect, read kept {have}")
         for b in bxs:
             case = {"base": "big:" + active_kind, "n": 12, "npartitions": k, "provenance": "parquet_bounds", "geometry": "act", "bounds": list(b)}
             r = read_parquet_dask(path, geometry="act", bounds=b)
